@@ -25,9 +25,13 @@ pub struct MAggX<C: Suite> {
     maxlen: usize,
     key_names: Vec<String>,
     pks: Vec<PublicKey<C>>,
-    msgs: Vec<Vec<u8>>,
+    /// msgs[key][msg]: the last two messages are relations to the entry's own key (its compressed bytes; these followed
+    /// by 01ff), the others are the same for every key
+    msgs: Vec<Vec<Vec<u8>>>,
     /// sigs[scheme][key][msg]
     sigs: Vec<Vec<Vec<Signature<C>>>>,
+    /// proof of possession of each key (C05: as a part of a proof-of-possession-scheme aggregate)
+    pops: Vec<ProofOfPossession<C>>,
     _c: PhantomData<C>,
 }
 
@@ -37,17 +41,35 @@ impl<C: Suite> MAggX<C> {
         let idx = [0usize, 2, 3];
         let key_names: Vec<String> = idx.iter().map(|i| ka.names[*i].clone()).collect();
         let sks: Vec<SecretKey<C>> = idx.iter().map(|i| sk_from_be::<C>(&ka.be[*i]).unwrap()).collect();
-        let pks = sks.iter().map(|k| k.public_key()).collect();
+        let pks: Vec<PublicKey<C>> = sks.iter().map(|k| k.public_key()).collect();
         // incl. a binary message and the ASCII hex text of the same bytes (equal under a printable rendering)
-        let msgs = vec![vec![0x01, 0xff], vec![0x01, 0xfe], vec![], vec![0xde, 0xad, 0xbe, 0xef, 0x00, 0xff, 0x80, 0x01], b"deadbeef00ff8001".to_vec()];
-        let sigs = SCHEMES.iter().map(|s| sks.iter().map(|k| msgs.iter().map(|m| k.sign(lib_scheme(*s), m).expect("honest sign")).collect()).collect()).collect();
-        MAggX { prop, maxlen: if tier.thorough() { 4 } else { 3 }, key_names, pks, msgs, sigs, _c: PhantomData }
+        let common = vec![vec![0x01, 0xff], vec![0x01, 0xfe], vec![], vec![0xde, 0xad, 0xbe, 0xef, 0x00, 0xff, 0x80, 0x01], b"deadbeef00ff8001".to_vec()];
+        let msgs: Vec<Vec<Vec<u8>>> = pks
+            .iter()
+            .map(|pk| {
+                let own = Vec::<u8>::from(pk);
+                let mut v = common.clone();
+                v.push(own.clone());
+                v.push([own, vec![0x01, 0xff]].concat());
+                v
+            })
+            .collect();
+        let sigs = SCHEMES.iter().map(|s| sks.iter().enumerate().map(|(ki, k)| msgs[ki].iter().map(|m| k.sign(lib_scheme(*s), m).expect("honest sign")).collect()).collect()).collect();
+        let pops = sks.iter().map(|k| k.proof_of_possession().expect("honest proof")).collect();
+        MAggX { prop, maxlen: if tier.thorough() { 4 } else { 3 }, key_names, pks, msgs, sigs, pops, _c: PhantomData }
     }
     fn npairs(&self) -> u8 {
-        (self.pks.len() * self.msgs.len()) as u8
+        (self.pks.len() * self.msgs[0].len()) as u8
     }
     fn pair(&self, i: u8) -> (usize, usize) {
-        (i as usize / self.msgs.len(), i as usize % self.msgs.len())
+        (i as usize / self.msgs[0].len(), i as usize % self.msgs[0].len())
+    }
+    fn msg_name(&self, m: usize) -> String {
+        match m {
+            5 => "own-key-bytes".into(),
+            6 => "own-key-bytes||01ff".into(),
+            _ => hex::encode(&self.msgs[0][m]),
+        }
     }
 }
 
@@ -64,7 +86,10 @@ impl<C: Suite> Model for MAggX<C> {
         if st.label.is_some() {
             return vec![];
         }
-        let mut a: Vec<u8> = if st.list.len() >= self.maxlen { vec![] } else { (0..self.npairs()).collect() };
+        // messages that are a relation to the entry's own key: in lists one shorter than the longest
+        let relation_ok = st.list.len() + 2 <= self.maxlen;
+        let has_relation = st.list.iter().any(|i| self.pair(*i).1 >= 5);
+        let mut a: Vec<u8> = if st.list.len() >= self.maxlen || (has_relation && st.list.len() + 1 >= self.maxlen) { vec![] } else { (0..self.npairs()).filter(|i| relation_ok || self.pair(*i).1 < 5).collect() };
         if self.prop == "C05" && st.list.len() >= 2 {
             // 100 + i: present under scheme i
             for l in SCHEMES {
@@ -87,30 +112,58 @@ impl<C: Suite> Model for MAggX<C> {
     fn describe(&self, st: &St) -> String {
         let l: Vec<String> = st.list.iter().map(|i| {
             let (k, m) = self.pair(*i);
-            format!("(key {}, msg {})", self.key_names[k], hex::encode(&self.msgs[m]))
+            format!("(key {}, msg {})", self.key_names[k], self.msg_name(m))
         }).collect();
         format!("{} {} aggregate over [{}] presented as {:?}", C::G, st.s.name(), l.join(", "), st.label.unwrap_or(st.s).name())
     }
     fn required_outcomes(&self) -> Vec<String> {
         if self.prop == "C05" {
-            vec!["relabelled:reject".into()]
+            vec!["relabelled:reject".into(), "proof-of-possession-as-part:reject".into()]
         } else {
             vec!["list:accept".into(), "list:reject-basic-duplicate".into(), "list:identity-aggregate".into()]
         }
     }
     fn check(&self, st: &St, o: &mut Obs) {
-        if st.list.len() < 2 || (self.prop == "C05" && st.label.is_none()) {
+        if st.list.len() < 2 || (self.prop == "C05" && st.label.is_none() && st.s != Scheme::Pop) {
             return;
         }
         o.nontrivial = true;
         let (p, g, sn) = (self.prop, C::G, st.s.name());
+        if self.prop == "C05" && st.label.is_none() {
+            // a published proof of possession in the place of one signer's signature, under the proof-of-possession
+            // scheme label: the proof is made under the other tag, so no message - in particular not the signer's own
+            // key bytes - makes it that signer's signature
+            let list: Vec<(PublicKey<C>, Vec<u8>)> = st.list.iter().map(|i| {
+                let (k, m) = self.pair(*i);
+                (self.pks[k], self.msgs[k][m].clone())
+            }).collect();
+            let pairs: Vec<(Vec<u8>, Vec<u8>)> = list.iter().map(|(k, m)| (Vec::<u8>::from(k), m.clone())).collect();
+            for j in 0..st.list.len() {
+                let mut acc = SgP::<C>::identity();
+                for (i, e) in st.list.iter().enumerate() {
+                    let (k, m) = self.pair(*e);
+                    acc += if i == j { self.pops[k].0 } else { *self.sigs[st.s.idx()][k][m].as_raw_value() };
+                }
+                if bool::from(acc.is_identity()) {
+                    continue;
+                }
+                let want = rf::aggregate_verify::<C::R>(Scheme::Pop, &pairs, &pt(&acc));
+                let v = guard(|| mk_agg_sig::<C>(Scheme::Pop, acc).verify(&list));
+                o.calls(1);
+                let got = matches!(v, Ok(Ok(())));
+                o.outcome(if got { "proof-of-possession-as-part:accept" } else { "proof-of-possession-as-part:reject" });
+                let (_, m) = self.pair(st.list[j]);
+                o.expect(&format!("{}:proof-of-possession-as-part:{}:msg-{}", p, g, self.msg_name(m)), got == want && v.is_ok(), if want { "accept" } else { "reject" }, verdict(&v));
+            }
+            return;
+        }
         let sigs: Vec<Signature<C>> = st.list.iter().map(|i| {
             let (k, m) = self.pair(*i);
             self.sigs[st.s.idx()][k][m]
         }).collect();
         let list: Vec<(PublicKey<C>, Vec<u8>)> = st.list.iter().map(|i| {
             let (k, m) = self.pair(*i);
-            (self.pks[k], self.msgs[m].clone())
+            (self.pks[k], self.msgs[k][m].clone())
         }).collect();
         let agg = match guard(|| AggregateSignature::<C>::from_signatures(&sigs)) {
             Ok(Ok(a)) => a,
@@ -130,9 +183,10 @@ impl<C: Suite> Model for MAggX<C> {
             for j in 0..i {
                 let (ki, mi) = self.pair(st.list[i]);
                 let (kj, mj) = self.pair(st.list[j]);
-                dup_msg |= mi == mj;
+                let same = self.msgs[ki][mi] == self.msgs[kj][mj];
+                dup_msg |= same;
                 dup_key |= ki == kj;
-                neg_key_same_msg |= mi == mj && ((ki == 0 && kj == 1) || (ki == 1 && kj == 0));
+                neg_key_same_msg |= same && ((ki == 0 && kj == 1) || (ki == 1 && kj == 0));
                 adjacent_same_key |= ki == kj && i == j + 1;
             }
         }
@@ -311,7 +365,7 @@ pub struct MAggPattern<C: Suite> {
 
 impl<C: Suite> MAggPattern<C> {
     pub fn new(prop: &'static str, tier: Tier) -> Self {
-        let maxlen = if tier.thorough() { 6 } else { 5 };
+        let maxlen = if tier.thorough() { 7 } else { 6 };
         MAggPattern { prop, maxlen, sks: (0..maxlen).map(|i| SecretKey::<C>::from_hash(format!("aggx-pattern-{}", i))).collect(), _c: PhantomData }
     }
 }
@@ -378,7 +432,7 @@ pub fn models(prop: &'static str, tier: Tier, seed: u64) -> Vec<Box<dyn DynModel
     let d = if tier.thorough() { 5 } else { 4 };
     let mut v = if prop == "C17" { vec![] } else { vec![bounded(MAggX::<Bls12381G1Impl>::new(prop, tier, seed), d), bounded(MAggX::<Bls12381G2Impl>::new(prop, tier, seed), d)] };
     if prop == "C06" || prop == "C17" {
-        let d = if tier.thorough() { 6 } else { 5 };
+        let d = if tier.thorough() { 7 } else { 6 };
         v.push(bounded(MAggPattern::<Bls12381G1Impl>::new(prop, tier), d));
         v.push(bounded(MAggPattern::<Bls12381G2Impl>::new(prop, tier), d));
     }
